@@ -38,9 +38,11 @@ func (sc *Scenario) Materialize(root string, resultDir string) ([]string, error)
 		if err := w("poly_"+p+"."+sc.FileExt, sc.polyFile()); err != nil {
 			return nil, err
 		}
-		decoy := *sc
-		decoy.PolySID = "ZZ9"
-		w("poly_"+p+".txt", decoy.polyFile())
+		if sc.FileExt != "txt" {
+			decoy := *sc
+			decoy.PolySID = "ZZ9"
+			w("poly_"+p+".txt", decoy.polyFile())
+		}
 	} else if err := w("poly_"+p+".txt", sc.polyFile()); err != nil {
 		return nil, err
 	}
@@ -707,12 +709,21 @@ func (sc *Scenario) gwFile() string {
 		b.WriteString("\n")
 	}
 	b.WriteString(head + "\n")
-	if sc.OtherField {
-		row("998", sc.Start, 7.5)
-	}
 	id := sc.Soil.ID
 	if sc.GWId != "" {
 		id = sc.GWId // gwId=<id> on the batch line selects the series; the rows under the soil's own id are decoys
+	}
+	// the other soil of the file: in 60 % of the files its id shares characters with the simulated one (the simulated id is its
+	// beginning or its end, or the other id is the beginning of the simulated one): only rows of exactly the simulated id count
+	other := "998"
+	if ro := NewRng(mix(mix(sc.Seed, uint64(sc.Index)), 7373)); ro.Bool(0.6) {
+		other = pickS(ro, []string{id + "1", id + "0", id + "x", "9" + id, id[:len(id)-1]})
+		if other == "" || other == sc.Soil.ID {
+			other = id + "7"
+		}
+	}
+	if sc.OtherField {
+		row(other, sc.Start, 7.5)
 	}
 	for i, p := range sc.GWSeries {
 		row(id, p.D, p.Level)
@@ -721,7 +732,7 @@ func (sc *Scenario) gwFile() string {
 		}
 		if sc.OtherField && i%2 == 0 {
 			// a file sorted by date holds the rows of several soils interleaved
-			row("998", p.D, p.Level+3.3)
+			row(other, p.D, p.Level+3.3)
 		}
 	}
 	return b.String()
